@@ -5115,6 +5115,13 @@ class WBEMConnection:  # pylint: disable=too-many-instance-attributes
                             ce.status_code in
                             (CIM_ERR_NOT_SUPPORTED, CIM_ERR_FAILED)):
                         self._use_enum_inst_pull_operations = False
+                    elif (self._use_pull_operations is None and
+                          pull_result is None and
+                          ce.status_code == CIM_ERR_NOT_SUPPORTED):
+                        # The Open request was rejected by a server that
+                        # supported this pull operation earlier on this
+                        # connection: use the traditional operation.
+                        self._use_enum_inst_pull_operations = False
                     else:
                         raise
 
@@ -5405,6 +5412,13 @@ class WBEMConnection:  # pylint: disable=too-many-instance-attributes
                     if (self._use_enum_path_pull_operations is None and
                             ce.status_code in
                             (CIM_ERR_NOT_SUPPORTED, CIM_ERR_FAILED)):
+                        self._use_enum_path_pull_operations = False
+                    elif (self._use_pull_operations is None and
+                          pull_result is None and
+                          ce.status_code == CIM_ERR_NOT_SUPPORTED):
+                        # The Open request was rejected by a server that
+                        # supported this pull operation earlier on this
+                        # connection: use the traditional operation.
                         self._use_enum_path_pull_operations = False
                     else:
                         raise
@@ -5752,6 +5766,13 @@ class WBEMConnection:  # pylint: disable=too-many-instance-attributes
                             ce.status_code in
                             (CIM_ERR_NOT_SUPPORTED, CIM_ERR_FAILED)):
                         self._use_assoc_inst_pull_operations = False
+                    elif (self._use_pull_operations is None and
+                          pull_result is None and
+                          ce.status_code == CIM_ERR_NOT_SUPPORTED):
+                        # The Open request was rejected by a server that
+                        # supported this pull operation earlier on this
+                        # connection: use the traditional operation.
+                        self._use_assoc_inst_pull_operations = False
                     else:
                         raise
 
@@ -6037,6 +6058,13 @@ class WBEMConnection:  # pylint: disable=too-many-instance-attributes
                     if (self._use_assoc_path_pull_operations is None and
                             ce.status_code in
                             (CIM_ERR_NOT_SUPPORTED, CIM_ERR_FAILED)):
+                        self._use_assoc_path_pull_operations = False
+                    elif (self._use_pull_operations is None and
+                          pull_result is None and
+                          ce.status_code == CIM_ERR_NOT_SUPPORTED):
+                        # The Open request was rejected by a server that
+                        # supported this pull operation earlier on this
+                        # connection: use the traditional operation.
                         self._use_assoc_path_pull_operations = False
                     else:
                         raise
@@ -6344,6 +6372,13 @@ class WBEMConnection:  # pylint: disable=too-many-instance-attributes
                             ce.status_code in
                             (CIM_ERR_NOT_SUPPORTED, CIM_ERR_FAILED)):
                         self._use_ref_inst_pull_operations = False
+                    elif (self._use_pull_operations is None and
+                          pull_result is None and
+                          ce.status_code == CIM_ERR_NOT_SUPPORTED):
+                        # The Open request was rejected by a server that
+                        # supported this pull operation earlier on this
+                        # connection: use the traditional operation.
+                        self._use_ref_inst_pull_operations = False
                     else:
                         raise
 
@@ -6608,6 +6643,13 @@ class WBEMConnection:  # pylint: disable=too-many-instance-attributes
                     if (self._use_ref_path_pull_operations is None and
                             ce.status_code in
                             (CIM_ERR_NOT_SUPPORTED, CIM_ERR_FAILED)):
+                        self._use_ref_path_pull_operations = False
+                    elif (self._use_pull_operations is None and
+                          pull_result is None and
+                          ce.status_code == CIM_ERR_NOT_SUPPORTED):
+                        # The Open request was rejected by a server that
+                        # supported this pull operation earlier on this
+                        # connection: use the traditional operation.
                         self._use_ref_path_pull_operations = False
                     else:
                         raise
@@ -6880,6 +6922,13 @@ class WBEMConnection:  # pylint: disable=too-many-instance-attributes
                     if (self._use_query_pull_operations is None and
                             ce.status_code in
                             (CIM_ERR_NOT_SUPPORTED, CIM_ERR_FAILED)):
+                        self._use_query_pull_operations = False
+                    elif (self._use_pull_operations is None and
+                          pull_result is None and
+                          ce.status_code == CIM_ERR_NOT_SUPPORTED):
+                        # The Open request was rejected by a server that
+                        # supported this pull operation earlier on this
+                        # connection: use the traditional operation.
                         self._use_query_pull_operations = False
                     else:
                         raise
